@@ -39,7 +39,12 @@ type Compiler struct {
 	varScopes       []map[string]string
 	currScope       *map[string]string
 	currModule      string
-	lambdaCount     uint
+	// The global scope of each module: an identifier means what its own module defines or imports,
+	// even if other modules define globals with the same name.
+	globalScopes map[string]map[string]string
+	// Functions which a module imports from other Homescript modules: function -> defining module.
+	fnImports   map[string]map[string]string
+	lambdaCount uint
 	// Program source: required for invocations of the evaluator.
 	analyzedSource   map[string]ast.AnalyzedProgram
 	entryPointModule string
@@ -61,6 +66,8 @@ func NewCompiler(program map[string]ast.AnalyzedProgram, entryPointModule string
 		varScopes:       scopes,
 		currScope:       currScope,
 		currModule:      "",
+		globalScopes:    make(map[string]map[string]string),
+		fnImports:       make(map[string]map[string]string),
 		currFn:          "",
 		// Program source.
 		analyzedSource:   program,
@@ -122,7 +129,7 @@ func (self *Compiler) compileProgram(
 	}
 
 	for moduleName, module := range program {
-		self.currModule = moduleName
+		self.enterModule(moduleName)
 		self.modules[self.currModule] = make(map[string]*Function)
 
 		initFn := self.mangleFn(InitFunctionIdent)
@@ -205,10 +212,35 @@ func (self *Compiler) compileProgram(
 	// 	}
 	// }
 
+	// Link imports between Homescript modules: an imported name refers to the item of the module it is imported from.
+	for moduleName, module := range program {
+		self.fnImports[moduleName] = make(map[string]string)
+
+		for _, item := range module.Imports {
+			if !item.TargetIsHMS {
+				continue
+			}
+
+			from := item.FromModule.Ident()
+			for _, importItem := range item.ToImport {
+				if importItem.Kind != pAst.IMPORT_KIND_NORMAL {
+					continue
+				}
+
+				ident := importItem.Ident.Ident()
+				if mangled, isGlobal := self.globalScopes[from][ident]; isGlobal {
+					self.globalScopes[moduleName][ident] = mangled
+				} else if _, isFn := self.modules[from][ident]; isFn {
+					self.fnImports[moduleName][ident] = from
+				}
+			}
+		}
+	}
+
 	moduleAnnotations := make(ModuleAnnotations)
 
 	for moduleName, module := range program {
-		self.currModule = moduleName
+		self.enterModule(moduleName)
 
 		// Compile all functions
 		var mainFnSpan errors.Span
@@ -252,7 +284,7 @@ func (self *Compiler) compileProgram(
 			// If the current module is the entry module,
 			// Go back to the entrypoint function and insert the main function call.
 			self.currFn = InitFunctionIdent
-			self.currModule = entryPointModule
+			self.enterModule(entryPointModule)
 
 			for moduleName, otherInit := range initFns {
 				if moduleName == entryPointModule {
